@@ -74,6 +74,9 @@ def groups_arg(draw, d):
         if c > prev:
             out.append([int(i) for i in perm[prev:c]])
             prev = c
+    if draw(st.integers(0, 7)) == 0:
+        # a declared variable that contributes no column (one-hot block of a single category with drop='first')
+        out.insert(draw(st.integers(0, len(out))), [])
     return out
 
 
@@ -90,6 +93,8 @@ def est_spec(draw, classes=None, n_max=12, d_max=4, k_max=3, hidden_max=4, iter_
          "x": {"d": d, "xseed": draw(gens.seeds), "xkind": draw(st.sampled_from(list(xkinds)))}}
     if draw(st.integers(0, 5)) == 0:
         s["verbose"] = True  # stdout is discarded by the harness; verbose branches are code paths too
+    if draw(st.integers(0, 2)) == 0:
+        s["ntype"] = draw(gens.seeds)
     if not default_lr:
         s["learning_rate"] = draw(st.sampled_from(list(lr)))
     if cls not in NO_BATCH_ARG and batch_sizes:
@@ -232,8 +237,28 @@ def build(s, X=None):
             kw["base_kernel"] = kernel2(bk)
     if cls == "Douglas" and s.get("feature_mask") is not None:
         kw["feature_mask"] = np.array(s["feature_mask"], dtype=bool)
-    est = CLASSES[cls](**kw)
+    est = CLASSES[cls](**number_types(kw, s.get("ntype")))
     return est, y
+
+
+def number_types(kw, seed):
+    """The same hyper-parameter values in the numeric types users produce (grids made with numpy, integer literals for
+    real-valued parameters): np.int64 / np.int32 for integers, np.float64 / int for reals."""
+    if seed is None:
+        return kw
+    rs = np.random.RandomState(seed)
+    out = {}
+    for k, v in kw.items():
+        c = rs.randint(4)
+        if isinstance(v, bool) or v is None:
+            out[k] = v
+        elif isinstance(v, int):
+            out[k] = [v, np.int64(v), np.int32(v), np.intp(v)][c]
+        elif isinstance(v, float):
+            out[k] = [v, np.float64(v), int(v) if float(v).is_integer() and v != 0 else v, np.float64(v)][c]
+        else:
+            out[k] = v
+    return out
 
 
 def kernelrim_kernel(s, Xa, Xb):
@@ -282,6 +307,8 @@ def kauri_spec(draw, n_max=30, d_max=4, kinds=("grid", "normal", "offset", "grid
          "x": {"d": d, "xseed": draw(gens.seeds), "xkind": draw(st.sampled_from(list(kinds)))}}
     if draw(st.integers(0, 5)) == 0:
         s["verbose"] = True
+    if draw(st.integers(0, 2)) == 0:
+        s["ntype"] = draw(gens.seeds)
     return s
 
 
@@ -360,4 +387,4 @@ def build_kauri(s, X=None):
     else:
         kw["kernel"] = "precomputed"
         y = kauri_ref_kernel(s, X)
-    return tree.Kauri(**kw), y
+    return tree.Kauri(**number_types(kw, s.get("ntype"))), y
